@@ -167,13 +167,22 @@ def into_target_tokens(target):
     return "&'static " + t if changed else target
 
 
+def mentions_param(td, ty):
+    """does the type (as written) mention a type or const parameter of the item?"""
+    for p in td.params:
+        if p["kind"] in ("ty", "const") and re.search(r"(?<![A-Za-z0-9_:])%s(?![A-Za-z0-9_])" % re.escape(p["name"]), ty):
+            return True
+    return False
+
+
 def added_predicates(td, trait, bound, target=None):
     """predicates (strings) the impl for `trait` adds to the where clause under bound mode `bound`
     (None = automatic)."""
     bt = bound_trait_path(td, trait, target)
     if bound is None:
         types, supers = auto_types(td, trait, target)
-        return ["%s: %s" % (t, bt) for t in types] + ["Self: %s" % s for s in supers]
+        # automatic mode only bounds field types that depend on a type or const parameter
+        return ["%s: %s" % (t, bt) for t in types if mentions_param(td, t)] + ["Self: %s" % s for s in supers]
     if bound[0] == "none":
         return []
     if bound[0] == "all":
